@@ -376,13 +376,20 @@ def run_scenario(sc, strategy, max_steps=20000):
                 gids, delays, exp = [txn[1]], [0], [False]
             elif kind == 'multi_str':
                 gids, delays, exp = list(txn[1]), [0] * len(txn[1]), [True] * len(txn[1])
+            elif kind == 'lines':     # ONE command of several lines: wait_before applies before every line, one reply (the last)
+                wb = int(round(float(sc.get('wait_before', 0)) * 10))
+                gids = list(txn[1])
+                delays = [wb] * (len(gids) - 1) + [0]
+                exp = [False] * (len(gids) - 1) + [True]
             else:
                 gids = [g for g, _, _ in txn[1]]
                 delays = [int(round(d * 10)) for _, _, d in txn[1]]
                 exp = [True if is_bytes else bool(e) for _, e, _ in txn[1]]
             s.log(ev='call', i=i, kind=kind, gids=gids, delays=delays, exp=exp)
             try:
-                if kind == 'multi_str':
+                if kind == 'lines':
+                    r = [io.communicate('\n'.join(cmd_text(g) for g in txn[1]))]
+                elif kind == 'multi_str':
                     r = io.multicomm([cmd_text(g) for g in txn[1]])
                 elif kind == 'comm':
                     r = [io.communicate(b'C%02d' % txn[1], RL)] if is_bytes else [io.communicate(cmd_text(txn[1]))]
